@@ -18,7 +18,9 @@ META = {
                    'init-call counts, input snapshots and aliasing between repeated evaluations are asserted.',
     'bounds': {
         'quick': {'list length': '<= 4 (outer <= 3, inner <= 2 for nested)', 'numbers': 'unbounded symbolic ints',
-                  'dict keys': "{'a','b','c'} with symbolic presence bits", 'levels': '0..3'},
+                  'dict keys': "{'a','b','c'} with symbolic presence bits", 'levels': '0..3',
+                  'custom ops': '7 ops whose results include None, 0 and () (plain, with a list sub-spec, as a Group aggregator)',
+                  'failed evaluations': '8 spec kinds, an indigestible element at position p < n <= 4, then two more evaluations of the same spec object'},
         'thorough': {'list length': '<= 5 (outer <= 4, inner <= 3)', 'levels': '0..3'},
     },
     'stubs': ['S3 glom_debug=True', 'S4 state reset'],
@@ -170,6 +172,123 @@ def flatten_eq(which: int, xss: List[List[int]], a: int) -> bool:
     return True
 
 
+# ---- Fold(subspec, init, op) == functools.reduce(op, items, init()) for EVERY op, None / falsy results included ------
+def _fold_op(opk, k):
+    return [
+        (lambda acc, v: None if v == k else v),                    # "last value, unless it is k"
+        (lambda acc, v: None if v == k else (acc or 0) + v),       # running sum that resets to None
+        (lambda acc, v: acc),                                      # ignores the items
+        (lambda acc, v: v),                                        # last item
+        (lambda acc, v: 0 if v == k else (acc or 0) + v),          # falsy but not None
+        (lambda acc, v: (acc or ()) + (v,) if v != k else ()),     # empty container as a legitimate result
+        (lambda acc, v: acc if acc is not None and acc >= v else v),
+    ][opk]
+
+
+N_FOLD_OPS = 7
+
+
+def fold_ops(opk: int, where: int, xs: List[int], a: int, k: int) -> bool:
+    start()
+    op = _fold_op(opk, k)
+    init = Counter(lambda: (a if opk != 5 else (a,)))
+    snap = list(xs)
+    exp = functools.reduce(op, xs, init.make())
+    if where == 0:
+        spec = Fold(T, init=init, op=op)
+        got = glom(xs, spec, glom_debug=True)
+        again = glom(xs, spec, glom_debug=True)
+    elif where == 1:
+        spec = Fold([T], init=init, op=op)
+        got = glom(xs, spec, glom_debug=True)
+        again = glom(xs, spec, glom_debug=True)
+    else:                                                              # the same reduction as a Group aggregator
+        from glom.grouping import Group
+        spec = Group(Fold(T, init=init, op=op))
+        if not xs:
+            return True                                                # no item: the aggregator is never started
+        got = glom(xs, spec, glom_debug=True)
+        again = glom(xs, spec, glom_debug=True)
+    reach('fold_ops')
+    if xs != snap:
+        return fail(why='input mutated')
+    return (got == exp and again == exp and type(got) is type(exp)) or fail(why='not functools.reduce(op, items, init())', got=got, again=again, exp=exp)
+
+
+# ---- an evaluation that FAILS part-way leaves nothing behind for the next evaluation of the same spec object ---------
+class _Bad:
+    """an element no reduction can digest"""
+
+
+def after_failure(kind: int, p: int, n: int, x: int) -> bool:
+    start()
+    kind, p, n = concretize(kind, 0, 7), concretize(p, 0, 3), concretize(n, 1, 4)
+    from vkit.common import OUT as _OUT
+    if _OUT in (kind, p, n) or p >= n:
+        return True
+    from glom.grouping import Group
+
+    def boom_op(acc, v):
+        if v is BAD:
+            raise ValueError('op failed')
+        return acc + [v]
+    BAD = _Bad()
+    if kind in (0, 1, 2):
+        good = [{'k%d' % i: x + i} for i in range(n)]
+        spec = [Merge(), Merge(init=OrderedDict), Merge(op='update')][kind]
+    elif kind == 3:
+        good = [[x + i] for i in range(n)]
+        spec = Flatten()
+    elif kind == 4:
+        good = [x + i for i in range(n)]
+        spec = Sum()
+    elif kind == 5:
+        good = [[x + i] for i in range(n)]
+        spec = Sum(init=list)
+    elif kind == 6:
+        good = [x + i for i in range(n)]
+        spec = Fold(T, init=list, op=boom_op)
+    else:
+        good = [[x + i] for i in range(n)]
+        spec = Flatten(init=list)
+    # the failing target holds OTHER data, so that anything it leaves behind shows in the next result
+    if kind in (0, 1, 2):
+        bad = [{'z%d' % i: x - i} for i in range(n)]
+    elif kind in (4, 6):
+        bad = [x + 100 + i for i in range(n)]
+    else:
+        bad = [[x + 100 + i] for i in range(n)]
+    bad[p] = BAD
+    fresh = glom(copy_of(good), _rebuild(kind, boom_op), glom_debug=True)
+    first = run_(lambda: glom(bad, spec, glom_debug=True))
+    if first[0] == 'ok':
+        return fail(why='the indigestible element was accepted', got=first[1])
+    reach('after_failure')
+    got = glom(good, spec, glom_debug=True)
+    if got != fresh or type(got) is not type(fresh):
+        return fail(why='an evaluation that failed part-way left state behind in the spec object', got=got, fresh=fresh, kind=kind, p=p)
+    got2 = glom(good, spec, glom_debug=True)
+    return (got2 == fresh and got2 is not got) or fail(why='third evaluation', got2=got2, fresh=fresh)
+
+
+def copy_of(v):
+    import copy
+    return copy.deepcopy(v)
+
+
+def run_(thunk):
+    try:
+        return ('ok', thunk())
+    except Exception as e:
+        return ('err', e)
+
+
+def _rebuild(kind, boom_op):
+    """a FRESH spec object of the same kind (the reference)"""
+    return [Merge(), Merge(init=OrderedDict), Merge(op='update'), Flatten(), Sum(), Sum(init=list),
+            Fold(T, init=list, op=boom_op), Flatten(init=list)][kind]
+
+
 def _nest(xs, depth):
     """[[x], [x, x+1]] style nesting of the given depth built from symbolic ints"""
     cur = list(xs)
@@ -314,7 +433,13 @@ def obligations(tier):
         pre = 'len(xss) <= %d and all(len(x) <= %d for x in xss)' % ((3, 2) if q else (4, 3))
         if w == 3:
             pre = 'len(xss) <= 2 and all(len(x) <= 2 for x in xss)'
-        obs.append(Ob(flatten_eq, fixed={'which': w}, pre=pre, name='flatten_eq_%d' % w))
+        obs.append(Ob(flatten_eq, fixed={'which': w}, pre=pre, name='flatten_eq_%d' % w, timeout=None if q else 1800))
+    for opk in range(N_FOLD_OPS):
+        obs.append(Ob(fold_ops, fixed={'opk': opk}, pre='0 <= where <= 2 and len(xs) <= %d' % L, name='fold_ops_%d' % opk,
+                      timeout=None if q else 900))
+    obs.append(Ob(after_failure, pre='0 <= kind <= 7 and 0 <= p <= 3 and 1 <= n <= 4', name='after_failure', timeout=200))
+    obs.append(Ob(after_failure, pre='0 <= kind <= 7 and 0 <= p <= 3 and 1 <= n <= 4', twin='after_failure', name='after_failure'))
+    obs.append(Ob(fold_ops, fixed={'opk': 1}, pre='0 <= where <= 2 and len(xs) <= %d' % L, twin='fold_ops', name='fold_ops_1'))
     for levels in range(4):
         for depth in range(3):
             for use_int in (False, True):
